@@ -96,5 +96,5 @@ Definition has_switch (tr : list (N * trig)) : bool :=
   existsb (fun p => t_trace_on (snd p) || t_trace_off (snd p)) tr.
 
 (* C05 stage 1: -F / -N / -D option sets against the tree-recursive specification [sel] *)
-Definition ok_sel (flt : list (N * option bool)) (fm : bool) (gd : N) (f : list call) (orecs : list seen5) : bool :=
-  list_eqb seen_eqb orecs (map ideal (flat_map (sel (assoc None flt) gd (x0 fm gd) 0) f)).
+Definition ok_sel (flt : list (N * option bool)) (fm : bool) (gd thr : N) (f : list call) (orecs : list seen5) : bool :=
+  list_eqb seen_eqb orecs (map ideal (flat_map (sel (assoc None flt) gd thr (x0 fm gd) 0) f)).
